@@ -8,7 +8,7 @@ from fractions import Fraction
 from typing import Any, Dict, List, Optional, Set
 
 from ..effects import Analyzer
-from ..interp import Arr, Interp, Unsupported, Raised
+from ..interp import ClassRef, Arr, Interp, Unsupported, Raised
 from ..model import staged, AnalysisError, Model, src, walk_no_nested, \
     nested_functions
 
@@ -199,63 +199,93 @@ def _r1(model, rep):
         hexm = it.eval(m.assigns["HEX_MAPPING"], {}, m)
     except (Unsupported, KeyError) as e:
         raise AnalysisError(f"HEX_MAPPING: {e}")
-    inv_src = src(m.assigns.get("INV_HEX_MAPPING", ast.Constant(None)))
-    _v(rep, R1, inv_src.replace(" ", "") ==
-       "[HEX_MAPPING.index(i)foriinrange(len(HEX_MAPPING))]",
-       "INV_HEX_MAPPING", "inverse table derived from HEX_MAPPING",
-       "INV_HEX_MAPPING", "the inverse table is not derived from "
-       "HEX_MAPPING", 1, FIO)
-    tm = src(m.assigns.get("TYPE_MESH_MAPPING", ast.Constant(None)))
-    _v(rep, R1, "MESH_TYPE_MAPPING[k]: k" in tm and
-       "MESH_TYPE_MAPPING" in tm.split("for k in")[1],
-       "TYPE_MESH_MAPPING", "writer's type table is the inverse of the "
-       "reader's", "TYPE_MESH_MAPPING", "the table used for writing is not "
-       "derived from the one used for reading", 1, FIO)
+    def const(name):
+        if name not in m.assigns:
+            raise AnalysisError(f"module constant {name} not found")
+        try:
+            return Interp(model).eval(m.assigns[name], {}, m)
+        except Raised as e:
+            return ("raises", e.what)
+        except Unsupported as e:
+            raise AnalysisError(f"{name}: {e}")
+    hexl = [int(x) for x in hexm]
+    inv = const("INV_HEX_MAPPING")
+    if isinstance(inv, tuple) and inv and inv[0] == "raises":
+        invl = []
+    else:
+        invl = [int(x) for x in (inv.flat() if isinstance(inv, Arr)
+                                 else inv)]
+    _v(rep, R1, len(invl) == len(hexl) and sorted(hexl) == list(
+        range(len(hexl))) and all(
+        invl[hexl[i]] == i for i in range(len(hexl))),
+       "INV_HEX_MAPPING", "INV_HEX_MAPPING[HEX_MAPPING[i]] == i for all i",
+       "INV_HEX_MAPPING", "INV_HEX_MAPPING is not the inverse permutation "
+       "of HEX_MAPPING", 1, FIO)
+    rd_tab = const("MESH_TYPE_MAPPING")
+    wr_tab = const("TYPE_MESH_MAPPING")
+    if not isinstance(rd_tab, dict) or not isinstance(wr_tab, dict):
+        raise AnalysisError("type tables are not dictionaries")
+
+    def cname(v):
+        return v.cls.name if isinstance(v, ClassRef) else repr(v)
+    bad = [(cname(c), t) for c, t in wr_tab.items()
+           if cname(rd_tab.get(t)) != cname(c)]
+    missing = sorted({cname(c) for c in rd_tab.values()}
+                     - {cname(c) for c in wr_tab})
+    _v(rep, R1, not bad and not missing and len(wr_tab) >= 8,
+       "TYPE_MESH_MAPPING", f"each of the {len(wr_tab)} mesh classes is "
+       f"written under a type name that reads back as the same class",
+       "TYPE_MESH_MAPPING",
+       f"writer/reader type tables disagree: {bad[:3]} read back as "
+       f"another class; classes without a name: {missing}", 1, FIO)
     fm, tmf = model.func(IO, "from_meshio"), model.func(IO, "to_meshio")
-    wsel = {}
-    for n in ast.walk(tmf.node):
-        if isinstance(n, ast.If):
-            node = n
-            while True:
-                t = src(node.test)
-                for s_ in node.body:
-                    if isinstance(s_, ast.Assign) and "HEX_MAPPING" in src(
-                            s_.value):
-                        wsel[t] = src(s_.value)
-                if len(node.orelse) == 1 and isinstance(node.orelse[0],
-                                                        ast.If):
-                    node = node.orelse[0]
-                else:
-                    break
-    rsel = {}
-    for n in ast.walk(fm.node):
-        if isinstance(n, ast.If) and "meshio_type ==" in src(n.test):
-            node = n
-            while True:
-                for s_ in node.body:
-                    if isinstance(s_, ast.Assign) and "HEX_MAPPING" in src(
-                            s_.value):
-                        rsel[src(node.test)] = src(s_.value)
-                if len(node.orelse) == 1 and isinstance(node.orelse[0],
-                                                        ast.If):
-                    node = node.orelse[0]
-                else:
-                    break
-    pairs = {("isinstance(mesh, MeshHex1)", "meshio_type == 'hexahedron'"):
-             ("t[HEX_MAPPING[:8]]", "t[INV_HEX_MAPPING[:8]]"),
-             ("isinstance(mesh, MeshHex2)", "meshio_type == 'hexahedron27'"):
-             ("t[HEX_MAPPING]", "t[INV_HEX_MAPPING]")}
-    for (wt, rt), (wv, rv) in pairs.items():
-        ok = wsel.get(wt) == wv and rsel.get(rt) == rv
-        cls_name = wt.split(", ")[1][:-1]
-        tstr = rt.split("'")[1]
-        mt = src(m.assigns["MESH_TYPE_MAPPING"])
-        table_ok = f"'{tstr}': {cls_name}" in mt
-        _v(rep, R1, ok and table_ok, f"hex-permutation[{tstr}]",
-           f"{cls_name} is written as '{tstr}' with {wv} and '{tstr}' is "
-           f"read with {rv}", "from_meshio/to_meshio",
-           f"node permutation not undone: writer {wsel.get(wt)}, reader "
-           f"{rsel.get(rt)}, table maps '{tstr}' to {cls_name}: {table_ok}",
+
+    def perm_branches(fn, key_of_test):
+        """test key -> evaluated index list of 't = t[<expr>]' whose index
+        mentions a HEX table"""
+        out = {}
+        for n in ast.walk(fn.node):
+            if not isinstance(n, ast.If):
+                continue
+            k = key_of_test(n.test)
+            if k is None:
+                continue
+            for s_ in n.body:
+                if isinstance(s_, ast.Assign) and isinstance(
+                        s_.value, ast.Subscript) and "HEX_MAPPING" in src(
+                            s_.value.slice):
+                    try:
+                        v = Interp(model).eval(s_.value.slice, {}, m)
+                    except (Unsupported, Raised) as e:
+                        raise AnalysisError(f"{fn.name}: node permutation "
+                                            f"'{src(s_.value)}': {e}")
+                    out[k] = [int(x) for x in (
+                        v.flat() if isinstance(v, Arr) else v)]
+        return out
+
+    def wkey(t):
+        if isinstance(t, ast.Call) and src(t.func) == "isinstance" and \
+                len(t.args) == 2 and isinstance(t.args[1], ast.Name):
+            return t.args[1].id
+        return None
+
+    def rkey(t):
+        if isinstance(t, ast.Compare) and len(t.ops) == 1 and isinstance(
+                t.ops[0], ast.Eq) and isinstance(t.comparators[0],
+                                                 ast.Constant):
+            c = rd_tab.get(t.comparators[0].value)
+            return cname(c) if c is not None else None
+        return None
+    wsel, rsel = perm_branches(tmf, wkey), perm_branches(fm, rkey)
+    for cls_name, nn in (("MeshHex1", 8), ("MeshHex2", 27)):
+        w, r = wsel.get(cls_name), rsel.get(cls_name)
+        ok = w is not None and r is not None and len(w) == len(r) == nn \
+            and all(0 <= r[i] < nn and w[r[i]] == i for i in range(nn))
+        _v(rep, R1, ok, f"hex-permutation[{cls_name}]",
+           f"{cls_name}: the node permutation applied on writing is undone "
+           f"on reading ({nn} nodes)", "from_meshio/to_meshio",
+           f"{cls_name}: writer permutes the nodes with {w}, the reader "
+           f"with {r}: the composition is not the identity on {nn} nodes",
            fm.lineno, FIO)
     return [int(x) for x in hexm]
 
@@ -739,6 +769,11 @@ MUTANTS = [
       "'subdomains': subdomains,"), "C17-R1"),
 ]
 TWINS = [
+    ("inverse hexahedron table built with sorted()",
+     (_IO, "INV_HEX_MAPPING = [HEX_MAPPING.index(i)\n"
+      "                   for i in range(len(HEX_MAPPING))]",
+      "INV_HEX_MAPPING = [k for _, k in sorted(\n"
+      "    (v, k) for k, v in enumerate(HEX_MAPPING))]")),
     ("decoder enumerates facets and cells through the transposed mask",
      [(FM, "                facets = self.t2f[mask]",
        "                facets = self.t2f.T[mask.T]"),
